@@ -88,6 +88,8 @@ class SlotImpl:
                 c[int(ws[1])] = E[int(ws[2])]
             elif op == 'delitem':
                 del c[int(ws[1])]
+            elif op == 'setslice':
+                c[int(ws[1]):int(ws[2])] = [E[int(x)] for x in ws[3:]]
             out = 'ok'
         except (KeyError, IndexError, ValueError):
             out = 'err'
@@ -102,6 +104,9 @@ def slot_ops(kind, n, univ):
     ops += [f'remove {x}' for x in range(univ)] + [f'pop {i}' for i in W] + ['clear']
     ops += [f'setitem {i} {x}' for i in W for x in range(univ)] + [f'delitem {i}' for i in W]
     ops += ['extend', 'extend 0', 'extend 0 1', 'extend 1 1 2', 'extend 2 0 2']
+    if kind == 'list':
+        # `l[a:b] = ys` and `del l[a:b]` (ys empty), every pair of bounds
+        ops += [f'setslice {a} {b}{ys}' for a in range(n + 2) for b in range(n + 2) for ys in ('', ' 0', ' 1 2', ' 0 0 1')]
     return ops
 
 
